@@ -16,7 +16,7 @@ Theorem C29_store_refines_map :
   (forall a b, name_eqb a b = true <-> a = b) ->
   (forall a b, H a = H b -> a = b) ->
   forall ops p,
-    obs name_eqb (run name name_eqb H ops init) p = aobs (arun true ops ainit) p.
+    obs name_eqb H (run name name_eqb H ops init) p = aobs (arun true ops ainit) p.
 Proof. exact store_refines_map. Qed.
 
 (* The skipped manifest write of an identical re-scan loses nothing: when the manifest is tampered
@@ -33,7 +33,7 @@ Theorem C29_store_refines_pure_map :
   (forall a b, name_eqb a b = true <-> a = b) ->
   (forall a b, H a = H b -> a = b) ->
   forall ops p, disciplined false ops = true ->
-    obs name_eqb (run name name_eqb H ops init) p = aobs (arun false ops ainit) p.
+    obs name_eqb H (run name name_eqb H ops init) p = aobs (arun false ops ainit) p.
 Proof. exact store_refines_pure_map. Qed.
 
 (* Reopening with the same key returns, for each source path, exactly the entry and the blob /
@@ -44,7 +44,7 @@ Theorem C29_reopen_returns_last_saved_build :
   (forall a b, H a = H b -> a = b) ->
   forall ops ah p, disciplined false ops = true ->
     a_h (arun false ops ainit) = Some ah ->
-    obs name_eqb (run name name_eqb H (ops ++ [Save; Drop; Open (ah_key ah)]) init) p =
+    obs name_eqb H (run name name_eqb H (ops ++ [Save; Drop; Open (ah_key ah)]) init) p =
     omap (fun e => (a_hash e, a_deps e, a_tests e, a_frag e, a_diag e)) (lookup p (ah_pend ah)).
 Proof. exact reopen_returns_last_saved_build. Qed.
 
@@ -55,7 +55,7 @@ Theorem C29_reopen_other_key_empty :
   (forall a b, H a = H b -> a = b) ->
   forall ops ah k' p, disciplined false ops = true ->
     a_h (arun false ops ainit) = Some ah -> k' <> ah_key ah ->
-    obs name_eqb (run name name_eqb H (ops ++ [Save; Drop; Open k']) init) p = None.
+    obs name_eqb H (run name name_eqb H (ops ++ [Save; Drop; Open k']) init) p = None.
 Proof. exact reopen_other_key_empty. Qed.
 
 (* ... and so does any open that finds a manifest of another key or schema on disk (no hypothesis
@@ -66,7 +66,7 @@ Theorem C29_other_key_or_schema_empty :
     | Some (sc, k', _) => sc <> SCHEMA \/ k' <> k
     | None => True
     end ->
-    obs name_eqb (step name name_eqb H (Open k) (run name name_eqb H ops init)) p = None.
+    obs name_eqb H (step name name_eqb H (Open k) (run name name_eqb H ops init)) p = None.
 Proof. exact other_key_or_schema_empty. Qed.
 
 (* Saving never deletes (or alters) a blob that the manifest it leaves on disk references, and every
@@ -91,7 +91,7 @@ Theorem C29_manifest_blobs_present :
     d_man (fst (run name name_eqb H ops init)) = Some (sc, k, f) -> In n (refs name f) ->
     exists payload,
       blob_lookup name name_eqb n (d_blobs (fst (run name name_eqb H ops init))) = Some (frame payload) /\
-      read_blob name name_eqb (d_blobs (fst (run name name_eqb H ops init))) n = Some payload.
+      read_blob name name_eqb H (d_blobs (fst (run name name_eqb H ops init))) n = Some payload.
 Proof. exact manifest_blobs_present. Qed.
 
 (* ---- non-vacuity *)
@@ -105,11 +105,11 @@ Definition ut_build := [Open 1; Put 0 1 (Some [98;108;111;98]); Put 1 2 None; Se
 Example C29_disciplined_example : disciplined false (ut_build ++ [Open 1]) = true.
 Proof. reflexivity. Qed.
 Example C29_roundtrip_example :
-  obs bytes_eqb (run_id (ut_build ++ [Open 1])) 0 = Some (1, [1], [], Some [98;108;111;98], None) /\
-  obs bytes_eqb (run_id (ut_build ++ [Open 1])) 1 = Some (2, [], [], None, None) /\
-  obs bytes_eqb (run_id (ut_build ++ [Open 2])) 0 = None /\
+  obs bytes_eqb (fun d => d) (run_id (ut_build ++ [Open 1])) 0 = Some (1, [1], [], Some [98;108;111;98], None) /\
+  obs bytes_eqb (fun d => d) (run_id (ut_build ++ [Open 1])) 1 = Some (2, [], [], None, None) /\
+  obs bytes_eqb (fun d => d) (run_id (ut_build ++ [Open 2])) 0 = None /\
   d_blobs (fst (run_id (ut_build ++ [Open 2; Save; Drop; Open 1]))) = [] /\
-  obs bytes_eqb (run_id (ut_build ++ [Open 2; Save; Drop; Open 1])) 0 = None.
+  obs bytes_eqb (fun d => d) (run_id (ut_build ++ [Open 2; Save; Drop; Open 1])) 0 = None.
 Proof. vm_compute. repeat split. Qed.
 
 (* the unit test `unchanged_rescan_skips_manifest_write`: the manifest is deleted behind an open
@@ -119,8 +119,8 @@ Definition ut_skip := [Open 1; Put 0 1 (Some [98]); Save; ExtRm; Keep 0; Save].
 Example C29_skip_save_after_external_delete :
   disciplined false ut_skip = false /\
   d_man (fst (run_id ut_skip)) = None /\
-  obs bytes_eqb (run_id ut_skip) 0 = Some (1, [], [], Some [98], None) /\
-  obs bytes_eqb (run_id (ut_skip ++ [Drop; Open 1])) 0 = None /\
+  obs bytes_eqb (fun d => d) (run_id ut_skip) 0 = Some (1, [], [], Some [98], None) /\
+  obs bytes_eqb (fun d => d) (run_id (ut_skip ++ [Drop; Open 1])) 0 = None /\
   aobs (arun true (ut_skip ++ [Drop; Open 1]) ainit) 0 = None /\
   aobs (arun false (ut_skip ++ [Drop; Open 1]) ainit) 0 = Some (1, [], [], Some [98], None).
 Proof. vm_compute. repeat split. Qed.
